@@ -65,3 +65,83 @@ func specHevThreshold(level int) uint8 {
 	}
 	return 0
 }
+
+// RFC 6386 section 14.1: dc_qlookup and ac_qlookup, the dequantisation step
+// for a quantiser index 0..127 (typed in from the RFC, not copied from
+// constants.go; the lemma quantTablesAreRFC compares the two).
+var specDcQ = [128]int{
+	4, 5, 6, 7, 8, 9, 10, 10, 11, 12, 13, 14, 15, 16, 17, 17,
+	18, 19, 20, 20, 21, 21, 22, 22, 23, 23, 24, 25, 25, 26, 27, 28,
+	29, 30, 31, 32, 33, 34, 35, 36, 37, 37, 38, 39, 40, 41, 42, 43,
+	44, 45, 46, 46, 47, 48, 49, 50, 51, 52, 53, 54, 55, 56, 57, 58,
+	59, 60, 61, 62, 63, 64, 65, 66, 67, 68, 69, 70, 71, 72, 73, 74,
+	75, 76, 76, 77, 78, 79, 80, 81, 82, 83, 84, 85, 86, 87, 88, 89,
+	91, 93, 95, 96, 98, 100, 101, 102, 104, 106, 108, 110, 112, 114, 116, 118,
+	122, 124, 126, 128, 130, 132, 134, 136, 138, 140, 143, 145, 148, 151, 154, 157,
+}
+
+var specAcQ = [128]int{
+	4, 5, 6, 7, 8, 9, 10, 11, 12, 13, 14, 15, 16, 17, 18, 19,
+	20, 21, 22, 23, 24, 25, 26, 27, 28, 29, 30, 31, 32, 33, 34, 35,
+	36, 37, 38, 39, 40, 41, 42, 43, 44, 45, 46, 47, 48, 49, 50, 51,
+	52, 53, 54, 55, 56, 57, 58, 60, 62, 64, 66, 68, 70, 72, 74, 76,
+	78, 80, 82, 84, 86, 88, 90, 92, 94, 96, 98, 100, 102, 104, 106, 108,
+	110, 112, 114, 116, 119, 122, 125, 128, 131, 134, 137, 140, 143, 146, 149, 152,
+	155, 158, 161, 164, 167, 170, 173, 177, 181, 185, 189, 193, 197, 201, 205, 209,
+	213, 217, 221, 225, 229, 234, 239, 245, 249, 254, 259, 264, 269, 274, 279, 284,
+}
+
+// specQIdx clamps a quantiser index (base index plus delta) to 0..hi.
+func specQIdx(v, hi int) int {
+	if v < 0 {
+		return 0
+	}
+	if v > hi {
+		return hi
+	}
+	return v
+}
+
+// RFC 6386 section 9.6 / 14.1 (dequantisation factors of one segment with
+// quantiser index q and the five frame-level deltas):
+//
+//	Y1: dc_q(q + y1dc_delta), ac_q(q)
+//	Y2: 2 * dc_q(q + y2dc_delta), ac_q(q + y2ac_delta) * 155 / 100, at least 8
+//	UV: dc_q(q + uvdc_delta) at most 132, ac_q(q + uvac_delta)
+//
+// specY2ACrfc and specUVDCrfc are the RFC's wording for a clamped index i over
+// the RFC's tables. The functions used in the contracts of ParseQuant and
+// setupSegment (specY1DC ... specUVAC) are the same factors phrased over the
+// package's own tables, without a division and without a comparison of table
+// values; the lemma quantTablesAreRFC proves, for all 128 indices, that the
+// package's tables are the RFC's and that the two phrasings agree. (Comparing
+// two different 128-entry tables at a symbolic index inside every
+// postcondition is what the solvers are slow at; the lemma does it once.)
+func specY2ACrfc(i int) int {
+	v := specAcQ[i] * 155 / 100
+	if v < 8 {
+		v = 8
+	}
+	return v
+}
+
+func specUVDCrfc(i int) int {
+	v := specDcQ[i]
+	if v > 132 {
+		v = 132
+	}
+	return v
+}
+
+func specY1DC(q, d int) int { return int(KDcTable[specQIdx(q+d, 127)]) }
+func specY1AC(q int) int    { return int(KAcTable[specQIdx(q, 127)]) }
+func specY2DC(q, d int) int { return 2 * int(KDcTable[specQIdx(q+d, 127)]) }
+func specY2AC(q, d int) int {
+	v := (int(KAcTable[specQIdx(q+d, 127)]) * 101581) >> 16
+	if v < 8 {
+		v = 8
+	}
+	return v
+}
+func specUVDC(q, d int) int { return int(KDcTable[specQIdx(q+d, 117)]) }
+func specUVAC(q, d int) int { return int(KAcTable[specQIdx(q+d, 127)]) }
